@@ -120,10 +120,10 @@ def gen_cases(tier, seed):
             steps = [[[z, (ND if v is None else v), cnt] for z, v, cnt in s] for s in steps]
         add({"api": api, "steps": steps, "shape": [ny, nx], "dtype": dtype, "nz": nz, "bits": rng.choice([24, 24, 53])})
     # large zones in run-length form
-    big = [(400, 250), (1000, 1000)] if quick else [(400, 250), (1000, 1000), (3000, 3000), (5000, 5000)]
+    big = [(400, 250), (1000, 1000), (4200, 4200)] if quick else [(400, 250), (1000, 1000), (3000, 3000), (5000, 5000)]
     for ny, nx in big:
         total = ny * nx
-        for fam in ("constant", "twovalued", "onelarge", "mixed"):
+        for fam in ("constant", "twovalued", "onelarge", "mixed") if not (quick and total > 2_000_000) else ("constant", "mixed"):
             if fam == "constant":
                 steps = [[[0, 3, total]]]
             elif fam == "twovalued":
